@@ -117,3 +117,16 @@ Definition call (w : world) (a : seedarg) (k : nat) : (nat * nat) * world :=
   | SGen h => let g := nth h (gens w) (mkgen 0 0) in
               ((stream g, pos g), mkworld (set_nth h (mkgen (stream g) (pos g + k)) (gens w)) (entropy w))
   end.
+
+(* a history of calls, each drawing one unit; the (stream, start position) every call reads *)
+Fixpoint run_calls (w : world) (cs : list seedarg) : list (nat * nat) :=
+  match cs with
+  | [] => []
+  | a :: cs' => let rw := call w a 1 in fst rw :: run_calls (snd rw) cs'
+  end.
+Fixpoint reads_eqb (l1 l2 : list (nat * nat)) : bool :=
+  match l1, l2 with
+  | [], [] => true
+  | (a, b) :: l1', (c, d) :: l2' => Nat.eqb a c && Nat.eqb b d && reads_eqb l1' l2'
+  | _, _ => false
+  end.
